@@ -86,6 +86,8 @@ def gen_ops(tier, rng):
 def flag_check(line, meta, flags):
     if flags.get("l0") == "0":
         return "schedule model's generator differs from the Lagrange closed form over Leopard's field"
+    if line.startswith("gen leo") and flags.get("sched") != "1":
+        return "the encode schedule violates a hypothesis of the structural theorems (row out of range / read before write)"
     if line.startswith("gen leo8") and flags.get("cert") != "1":
         return "the proved MDS certificate rejects the GF(2^8) generator"
     return None
